@@ -164,4 +164,232 @@ theorem returned_records_from_upstream {env : Env} (hc : UpClean env) {fuel d : 
   obtain ⟨m0, hup, hs⟩ := validate_sound hc fuel d q m h
   exact ⟨m0, hup, (hs sec hsec r hr).1⟩
 
+/-! ## the server's mapping (`build_forwarded_response`) -/
+
+theorem summaryGo_secure (rs : List Rec) (st : Option Bool) (h : summaryGo rs st = .secure) :
+    (∀ r ∈ rs, r.proof = .secure) ∧ (rs ≠ [] ∨ st = some true) ∧ st ≠ some false := by
+  induction rs generalizing st with
+  | nil =>
+    unfold summaryGo at h
+    split at h
+    · rename_i hs
+      cases st with
+      | none => simp at hs
+      | some b => cases b <;> simp_all
+    · simp at h
+  | cons r rest ih =>
+    unfold summaryGo at h
+    split at h
+    · rename_i hp
+      obtain ⟨h1, _, h3⟩ := ih _ h
+      refine ⟨?_, Or.inl (by simp), ?_⟩
+      · intro x hx
+        rcases List.mem_cons.mp hx with hx | hx
+        · exact hx ▸ hp
+        · exact h1 x hx
+      · intro hst; subst hst; simp at h3
+    · simp at h
+    · obtain ⟨_, _, h3⟩ := ih _ h
+      simp at h3
+
+theorem summaryGo_bogus_of_mem (rs : List Rec) (st : Option Bool) (h : ∃ r ∈ rs, r.proof = .bogus) :
+    summaryGo rs st = .bogus ∨ False := by
+  left
+  induction rs generalizing st with
+  | nil => obtain ⟨r, hr, _⟩ := h; simp at hr
+  | cons x rest ih =>
+    obtain ⟨r, hr, hp⟩ := h
+    unfold summaryGo
+    rcases List.mem_cons.mp hr with hx | hx
+    · subst hx; simp [hp]
+    · split
+      · exact ih _ ⟨r, hx, hp⟩
+      · rfl
+      · exact ih _ ⟨r, hx, hp⟩
+
+/-- **AD only if all Secure**: the forwarded response carries AD only when the validator returned `Ok` and
+every summarised record (a non-empty list: the answers, or the non-SOA authority records of a negative
+answer) is Secure. -/
+theorem ad_only_if_all_secure (cd : Bool) (r : Res) (h : (serverView cd r).2 = true) :
+    ∃ m, r = .ok m ∧ summarised m ≠ [] ∧ ∀ x ∈ summarised m, x.proof = .secure := by
+  unfold serverView at h
+  split at h
+  · rename_i m
+    refine ⟨m, rfl, ?_⟩
+    split at h
+    · rename_i hs
+      obtain ⟨h1, h2, _⟩ := summaryGo_secure _ none hs
+      exact ⟨by simpa using h2, h1⟩
+    · split at h <;> simp at h
+    · simp at h
+  · simp at h
+  · simp at h
+
+/-- **Bogus ⇒ SERVFAIL unless CD**: a Bogus record among the summarised ones makes the response SERVFAIL
+(without AD) for a client that did not set CD. -/
+theorem bogus_servfail_unless_cd (m : Msg) (h : ∃ x ∈ summarised m, x.proof = .bogus) :
+    serverView false (.ok m) = (some 2, false) := by
+  rcases summaryGo_bogus_of_mem _ none h with hb | hf
+  · simp [serverView, summary, hb]
+  · exact hf.elim
+
+/-- every error of the validator other than an NSEC error with proof Insecure is SERVFAIL without AD,
+whatever the CD bit -/
+theorem error_servfail (cd : Bool) (r : Res) (hok : ∀ m, r ≠ .ok m) (hi : r ≠ .errNsec .insecure) :
+    serverView cd r = (some 2, false) := by
+  unfold serverView
+  split
+  · rename_i m; exact absurd rfl (hok m)
+  · exact absurd rfl hi
+  · rfl
+
+/-! ## concrete upstreams: non-vacuity and the kernel-checked replays of the findings -/
+
+def cleanOut : UpOut → Bool
+  | .ok m | .noRecords m => m.all.all (·.proof == .indet)
+  | _ => true
+
+theorem traceFind_mem (trace : List (Query × UpOut)) (i : Nat) (q : Query) (o : UpOut)
+    (h : (traceFind trace i q).out = o) (hne : o ≠ .missing) : ∃ e ∈ trace, e.2 = o := by
+  induction trace generalizing i with
+  | nil => simp [traceFind] at h; exact absurd h.symm hne
+  | cons e rest ih =>
+    obtain ⟨q', o'⟩ := e
+    unfold traceFind at h
+    split at h
+    · exact ⟨(q', o'), List.mem_cons_self, h⟩
+    · obtain ⟨e, he, h'⟩ := ih _ h
+      exact ⟨e, List.mem_cons_of_mem _ he, h'⟩
+
+/-- a replayed trace of unvalidated records is a clean upstream -/
+theorem upClean_of_trace (trace : List (Query × UpOut)) (anchor : Nat → Bool) (covers : Nat → Nat → Bool)
+    (sigRes : Nat → Nat → GroupId → SigRes) (nsec : Nat → Nat → Nat → Proof)
+    (h : trace.all (fun e => cleanOut e.2) = true) :
+    UpClean { up := traceUp trace, anchor := anchor, covers := covers, sigRes := sigRes, nsec := nsec } := by
+  intro q m hm r hr
+  simp only [List.all_eq_true] at h
+  rcases hm with hm | hm
+  · obtain ⟨e, he, heq⟩ := traceFind_mem trace 0 q _ hm (by simp)
+    have := h e he
+    rw [heq] at this
+    simp only [cleanOut, List.all_eq_true, beq_iff_eq] at this
+    exact this r hr
+  · obtain ⟨e, he, heq⟩ := traceFind_mem trace 0 q _ hm (by simp)
+    have := h e he
+    rw [heq] at this
+    simp only [cleanOut, List.all_eq_true, beq_iff_eq] at this
+    exact this r hr
+
+namespace Ex
+/-! A two-level hierarchy: the root (trust anchor `kr`) delegates `z.` with a DS `dsz` covering `kz`;
+`www.z. A` is signed by `kz`.  Record ids: a 0, sigA 1, kz 2, sigKz 3, dsz 4, sigDs 5, kr 6, sigKr 7. -/
+def a : Rec := { name := ["www", "z"], rtype := 1, rid := 0 }
+def sigA : Rec := { name := ["www", "z"], rtype := 46, rid := 1, covered := 1, signer := ["z"], labels := 2 }
+def kz : Rec := { name := ["z"], rtype := 48, rid := 2, tag := 7, alg := 15, algSupp := true }
+def sigKz : Rec := { name := ["z"], rtype := 46, rid := 3, covered := 48, signer := ["z"], labels := 1 }
+def dsz : Rec := { name := ["z"], rtype := 43, rid := 4, tag := 7, alg := 15, algSupp := true, digSupp := true }
+def sigDs : Rec := { name := ["z"], rtype := 46, rid := 5, covered := 43, signer := [], labels := 1 }
+def kr : Rec := { name := [], rtype := 48, rid := 6, tag := 9, alg := 15, algSupp := true }
+def sigKr : Rec := { name := [], rtype := 46, rid := 7, covered := 48, signer := [], labels := 0 }
+
+def msg (an : List Rec) : UpOut := .ok { rcode := 0, an := an, ns := [], ad := [] }
+
+def qA : Query := ⟨["www", "z"], 1⟩
+def qKz : Query := ⟨["z"], 48⟩
+def qDs : Query := ⟨["z"], 43⟩
+def qKr : Query := ⟨[], 48⟩
+
+/-- the crypto oracles of the example: `kr` is the anchor, `dsz` covers `kz`, each RRSIG verifies under the
+key that made it (over the RRset occurrence with the stated exchange index), and an RRSIG over an
+*empty* RRset is `Ok((Bogus, None))` as in `verify_rrset_with_dnskey` (`dsAt`: the exchange whose DS RRset is intact) -/
+def mkEnv (trace : List (Query × UpOut)) (dsAt : Option Nat := some 2) : Env where
+  up := traceUp trace
+  anchor rid := rid == 6
+  covers d k := d == 4 && k == 2
+  sigRes k s g :=
+    if (k, s, g) = (2, 1, (⟨0, 0, ["www", "z"], 1⟩ : GroupId)) then .secure
+    else if (k, s) = (2, 3) && g.rtype == 48 && g.name == ["z"] then .secure
+    else if (k, s) = (6, 7) && g.rtype == 48 && g.name == [] then .secure
+    else if (k, s) = (6, 5) && g.rtype == 43 then (if some g.qid == dsAt then .secure else .bogus)
+    else .err
+  nsec _ _ _ := .bogus
+
+def traceGood : List (Query × UpOut) :=
+  [(qA, msg [a, sigA]), (qKz, msg [kz, sigKz]), (qDs, msg [dsz, sigDs]), (qKr, msg [kr, sigKr])]
+
+/-- F1: the DS record is removed from the answer to `z. DS`; its RRSIG stays -/
+def traceNoDs : List (Query × UpOut) :=
+  [(qA, msg [a, sigA]), (qKz, msg [kz, sigKz]), (qDs, msg [sigDs]), (qKr, msg [kr, sigKr])]
+
+/-- F2: the root DNSKEY is removed from the answer to `. DNSKEY`; its RRSIG stays -/
+def traceOrphan : List (Query × UpOut) := [(qKr, msg [sigKr])]
+
+/-- F3: `z. DNSKEY` is answered with the DS-covered key alone, no RRSIG -/
+def traceUnsignedKey : List (Query × UpOut) :=
+  [(qKz, msg [kz]), (qDs, msg [dsz, sigDs]), (qKr, msg [kr, sigKr])]
+
+def sec' (r : Rec) : Rec := { r with proof := .secure }
+def ins' (r : Rec) : Rec := { r with proof := .insecure }
+end Ex
+
+open Ex in
+/-- non-vacuity: on the untampered hierarchy the validator returns the answer Secure … -/
+theorem ex_good_secure :
+    validate (mkEnv traceGood) 27 0 qA = .ok { rcode := 0, an := [sec' a, sec' sigA], ns := [], ad := [] } := by
+  decide
+
+open Ex in
+theorem ex_good_clean : UpClean (Ex.mkEnv Ex.traceGood) := upClean_of_trace _ _ _ _ _ (by decide)
+
+open Ex in
+/-- … so `secure_implies_chain` applies to a concrete, non-trivial instance (three links: RRSIG by `kz`,
+DS covering `kz` signed by the root key, root key = anchor). -/
+example : Chain (mkEnv traceGood) qA 0 a :=
+  secure_implies_chain ex_good_clean ex_good_secure (sec := 0) (by omega) (r := sec' a) (by simp [Msg.sec])
+    rfl (by decide) (by decide)
+
+open Ex in
+/-- **Replay of finding `C07.DsAnswerWithoutDsAccepted`** (kernel-checked): the same hierarchy, the DS record
+removed from the DS answer (class predicate holds) — the signed answer comes back *Insecure*, with no error
+(`Ok`), and the server forwards it as NOERROR without AD instead of SERVFAIL. -/
+theorem ds_answer_without_ds_downgrades :
+    dsAnswerWithoutDs traceNoDs = true ∧
+    validate (mkEnv traceNoDs none) 27 0 qA = .ok { rcode := 0, an := [ins' a, ins' sigA], ns := [], ad := [] } ∧
+    serverView false (validate (mkEnv traceNoDs none) 27 0 qA) = (some 0, false) := by
+  decide
+
+open Ex in
+/-- **Replay of finding `C07.OrphanDnskeyRrsigPanic`** (kernel-checked): an RRSIG covering DNSKEY without a
+DNSKEY record panics the validator. -/
+theorem orphan_dnskey_rrsig_panics :
+    orphanDnskeyRrsig traceOrphan = true ∧ validate (mkEnv traceOrphan none) 27 0 qKr = .abort "panic" := by
+  decide
+
+/-- the strict reading needs a signature in the section -/
+theorem keySigned_needs_sig {env : Env} {q : Query} {sec : Nat} {k : Rec} (h : KeySigned env q sec k) :
+    env.anchor k.rid = true ∨ ∃ qid m, upMsg env q = some (qid, m) ∧ ∃ s ∈ m.sec sec, s.isSig = true := by
+  rcases h with h | ⟨_, sig, qid, m, hup, _, _, _, _, hs, hsig, _⟩
+  · exact Or.inl h
+  · exact Or.inr ⟨qid, m, hup, sig, hs, hsig⟩
+
+open Ex in
+/-- **Replay of finding `C07.UnsignedDnskeyRrsetSecure`** (kernel-checked): a DNSKEY RRset holding only the
+DS-covered key, with no RRSIG at all, is returned Secure (and the server sets AD), although the key is
+not a trust anchor and its RRset is not signed: `KeySigned` fails. -/
+theorem unsigned_dnskey_rrset_secure :
+    validate (mkEnv traceUnsignedKey (some 1)) 27 0 qKz = .ok { rcode := 0, an := [sec' kz], ns := [], ad := [] } ∧
+    unsignedSecureDnskeyIn [sec' kz] = true ∧
+    serverView false (validate (mkEnv traceUnsignedKey (some 1)) 27 0 qKz) = (some 0, true) ∧
+    ¬ KeySigned (mkEnv traceUnsignedKey (some 1)) qKz 0 kz := by
+  refine ⟨by decide, by decide, by decide, ?_⟩
+  intro h
+  rcases keySigned_needs_sig h with h | ⟨qid, m, hup, s, hs, hsig⟩
+  · revert h; decide
+  · have : upMsg (mkEnv traceUnsignedKey (some 1)) qKz = some (0, { rcode := 0, an := [kz], ns := [], ad := [] }) := by decide
+    rw [this] at hup
+    injection hup with hup; injection hup with _ hm; subst hm
+    simp only [Msg.sec, List.mem_singleton] at hs
+    subst hs
+    revert hsig; decide
+
 end HickoryVerif.C07
